@@ -160,17 +160,26 @@ class C01(Prop):
                 lines.append(f"repair {rng.choice([1, 1, 3, 0])} {rng.choice([2, 10, 1])}")
             elif k < 0.93:
                 lines.append(mito.dg_line(mito.gen_tracer(rng, depth, "any", False)))
-            else:
+            elif k < 0.985:
                 e = mito.gen_concrete(rng, 3, self.fn_names, self.const_names)
                 if mito.cheap(e):
                     lines.append(mito.cmet_line(rng.choice(["auto", "math", "logic", "transform", "tool"]), e))
+            else:
+                # large VALUES (long strings / lists, huge ints): a result, never a raise, whatever the value's size
+                kind, e = mito.big_text(rng, self.max_len, mito.BIG_SIZES_QUICK[:5])
+                if rng.random() < 0.7:
+                    lines.append(mito.cmet_line(rng.choice(["auto", "math", "logic"]), e))
+                else:
+                    lines.append(mito.cdg_line(e, mito.str_raises_of(e)))
         return {"lines": lines, "note": "tracer"}
 
     LEGACY = [("10**5000", True), ("10**4299", False), ("10**4300", True), ("[10**5000]", True), ("-10**5000", True),
               ("(10**5000, 1)", True), ("2 + 2", False), ("1/0", False), ("10**5000 // 10**4990", False),
               ("factorial(2000)", True), ("2**20000", True), ("float(10**300)", False), ("'a' * 5000", False),
               ("max(10**5000, 1)", True), ("10**5000 > 1", False), ("", False), ("pi", False), ("[]", False),
-              ("9" * 4300, False), ("9" * 4301, False), ("int('9' * 4301)", False)]
+              ("9" * 4300, False), ("9" * 4301, False), ("int('9' * 4301)", False),
+              ("'ab' * 3000", False), ("'q' * 4097", False), ("[0] * 70000", False), ("'x' * 1048577", False),
+              ("2 ** 4097", False), ("2 ** 70000", True), ("'%x' % (2 ** 70000)", False), ("(1, 'a') * 40000", False)]
 
     def _registry_case(self, rng, depth):
         """registration histories: use a tool, re-register another body under the same name / remove it / clear the
@@ -424,6 +433,22 @@ class C01(Prop):
                 lines.append(mito.dg_line(src))
             cases.append({"lines": lines, "note": "legacy entry point (tracers)"})
         spaces.append({"name": "digest_glucose / agent calculate path on values whose str() raises or not", "cases": cases})
+        # long failure histories on engines that do not latch (a large max_ros): the error level a result carries grows
+        # without bound (0.1 per failure), and a result comes back every time
+        cases = []
+        for (n, ros, silent) in ((1100, (10 ** 6, 1), True), (130, (50, 1), False)) if tier == "quick" else \
+                ((2600, (10 ** 6, 1), True), (1100, (10 ** 6, 1), False), (130, (12, 1), True)):
+            lines = mito.header(rng, facts, tools=[("tool1", [])], silent=silent, ros=ros)
+            fails = [mito.met_line("math", "zz"), mito.met_line("auto", "t0 +"), mito.met_line("tool", "nosuch(t0)"),
+                     mito.met_line("logic", "zz < t0"), mito.met_line("transform", "{"), mito.met_line("math", "")]
+            for i in range(n):
+                lines.append(fails[i % len(fails)] if i % 97 else mito.met_line("math", "t0"))
+            lines.append(mito.dg_line("zz"))
+            lines.append("repair 1 2")
+            lines.append(mito.met_line("math", "t1"))
+            cases.append({"lines": lines, "note": "long failure history"})
+        spaces.append({"name": "long failure histories (hundreds / thousands of failures on an engine with a large "
+                               "max_ros): a result every time", "cases": cases})
         # every kind of exception out of a tool body x pathway selection
         cases = []
         for kind in mito.EXC_KINDS:
